@@ -151,6 +151,17 @@ CHECKS["C09"] = (
     "DESIGN.md section 6, C09",
 )
 
+CHECKS["C10"] = (
+    "Hypothesis-generated baselines/reporting sets with threshold-hugging defect counts; independent restatement of the criteria with accept-either bands",
+    "Generated-input search over daily, billing and hourly data classes (baseline and reporting, electric/gas, frame and from_series, "
+    "daily and hourly feeds, spans aimed at 328-330 / 364-366 days and at DST changes, missing-day counts at floor(0.1 n) +- 2, one "
+    "month with 2/3/4 missing days, negative values, zeros, extreme values, UTC index): the reported disqualification set must contain "
+    "every criterion the reference says is violated and nothing the reference excludes; warnings appear exactly when triggered and "
+    "never as disqualifications.",
+    "Trusted: reference_daily / the hourly reference in vf/props/c10.py; where DST makes a day count fractional both verdicts are accepted.",
+    "DESIGN.md section 6, C10",
+)
+
 PENDING_REASON = "check not built yet in this session (work in progress; property-based testing applies and is planned, see DESIGN.md section 6)"
 
 
